@@ -35,7 +35,7 @@ def run_one(m):
             return m, "BROKEN (does not compile / checker crash)", "\n".join(outs)[-1500:]
         anyv = any("VIOLATION" in o for o in outs)
         if m.get("neutral"):
-            return m, "detected" if not anyv else "FALSE-ALARM", "\n".join(outs)[-1200:]
+            return m, "silent (neutral)" if not anyv else "FALSE-ALARM", "\n".join(outs)[-1200:]
         return m, "detected" if fired else "MISSED", "\n".join(outs)[-1200:]
     finally:
         shutil.rmtree(d, ignore_errors=True)
@@ -60,7 +60,7 @@ def main():
     with concurrent.futures.ThreadPoolExecutor(jobs) as ex:
         for m, verdict, out in ex.map(run_one, ms):
             print("%-40s %-10s %s" % (m["id"], ",".join(m["props"]), verdict))
-            if verdict != "detected":
+            if verdict not in ("detected", "silent (neutral)"):
                 bad += 1
                 print("    " + out.replace("\n", "\n    ")[-1000:])
     print("%d mutants, %d not detected" % (len(ms), bad))
